@@ -35,7 +35,8 @@ Inductive hexpr := HObj | HItem | HIdx (e : hexpr) (n : nat) | HKey (e : hexpr) 
 Inductive hcond :=
 | CIsNone (e : hexpr) | CIsPrim (e : hexpr) | CIsStr (e : hexpr) | CIsList (e : hexpr)
 | CHasKey (k : string) (e : hexpr) | CEqStr (e : hexpr) (s : string) | CLenEq0 (e : hexpr)
-| CNot (c : hcond) | COr (a b : hcond) | CAnd (a b : hcond).
+| CNot (c : hcond) | COr (a b : hcond) | CAnd (a b : hcond)
+| CAnyItem (e : hexpr) (c : hcond).        (* any(c for item in e): c is evaluated with [item] bound to each element in turn *)
 Inductive hret :=
 | RNone | RSelf (e : hexpr) | REmpty | RStruct (e : hexpr) (t : pty) | RStr (e : hexpr) | RIntOf (e : hexpr)
 | RMap (e : hexpr) (body : hret) | RIf (c : hcond) (a b : hret) | RTuple (l : list hret).
@@ -110,6 +111,11 @@ Fixpoint ceval (c : hcond) (o : json) (it : option json) : res bool :=
   | CNot c => do b <- ceval c o it; Ok (negb b)
   | COr a b => do x <- ceval a o it; if x then Ok true else ceval b o it
   | CAnd a b => do x <- ceval a o it; if x then ceval b o it else Ok false
+  | CAnyItem e c => do v <- heval e o it;
+      match iter_json v with
+      | Some l => (fix any (l : list json) : res bool :=
+                     match l with [] => Ok false | x :: r => do b <- ceval c o (Some x); if b then Ok true else any r end) l
+      | None => Err "TypeError: not iterable" end
   end.
 
 Definition in_range_i (z : Z) : bool := ((-2147483648 <=? z) && (z <=? 2147483647))%Z.
